@@ -14,7 +14,8 @@ package main
 //	                           version below <version>; saved rounds at versions >= <version> become superseded (a
 //	                           re-execution of a round at the same version = a competing block; the chain continues
 //	                           from the later one)
-//	ver 0 <n>                  SetVersion of the block trie (a trie carried over a version bump before its save)
+//	ver <id> <n>               SetVersion of a trie (block trie: a trie carried over a version bump before its save)
+//	syncinto <id> <w> <pairs>  like syncfrom, on trie <id>
 //	syncfrom <w> <k=hex,...>   build a donor trie at version w in a MemoryNodeDB and MergeDB it into the block trie
 //	                           (state sync: the donor's nodes keep their own origins; the block trie takes its root)
 //	child <id> <parent>        open a transaction trie over NewLevelNodeDB(NewMemoryNodeDB(), parent.GetNodeDB(), false)
@@ -763,20 +764,34 @@ func (s *storeRun) exec(op string) string {
 
 	case "ver":
 		t := trie(f[1])
-		if t == nil || t.id != 0 {
+		if t == nil {
 			return "bad-op"
 		}
 		s.roundOps = append(s.roundOps, op)
-		s.version = int64(atoi(f[2]))
-		t.mpt.SetVersion(util.Sequence(s.version))
+		v := int64(atoi(f[2]))
+		if t.id == 0 {
+			s.version = v
+		} else {
+			s.tags["version-bump-child"] = true
+		}
+		if len(s.tries) > 1 {
+			s.tags["version-bump-with-children-open"] = true
+		}
+		t.mpt.SetVersion(util.Sequence(v))
 		s.tags["version-bump"] = true
 		if !s.sub {
-			s.frame(map[int]bool{0: true}, -1)
+			s.frame(map[int]bool{t.id: true}, -1)
 		}
 		return "ok"
 
-	case "syncfrom":
+	case "syncfrom", "syncinto":
+		// syncinto <id> <w> <pairs>: the same on trie <id> (a child filled by MergeDB)
 		t := s.tries[0]
+		if f[0] == "syncinto" {
+			t = trie(f[1])
+			f = append([]string{"syncfrom"}, f[2:]...)
+			s.tags["syncinto-child"] = true
+		}
 		if t == nil {
 			return "bad-op"
 		}
@@ -812,7 +827,7 @@ func (s *storeRun) exec(op string) string {
 		}
 		if !s.sub {
 			s.checkView(t, "after MergeDB")
-			s.frame(map[int]bool{0: true}, 0)
+			s.frame(map[int]bool{t.id: true}, t.id)
 		}
 		return out
 
